@@ -1407,7 +1407,9 @@ func (e *CoreExtension) filterFirst(value interface{}, args ...interface{}) (int
 	switch v := value.(type) {
 	case string:
 		if len(v) > 0 {
-			return string(v[0]), nil
+			// the first character, not the first byte
+			r, _ := utf8.DecodeRuneInString(v)
+			return string(r), nil
 		}
 		return "", nil
 	case []interface{}:
@@ -1434,7 +1436,8 @@ func (e *CoreExtension) filterFirst(value interface{}, args ...interface{}) (int
 	case reflect.String:
 		s := rv.String()
 		if len(s) > 0 {
-			return string(s[0]), nil
+			r, _ := utf8.DecodeRuneInString(s)
+			return string(r), nil
 		}
 		return "", nil
 	case reflect.Array, reflect.Slice:
@@ -1462,7 +1465,9 @@ func (e *CoreExtension) filterLast(value interface{}, args ...interface{}) (inte
 	switch v := value.(type) {
 	case string:
 		if len(v) > 0 {
-			return string(v[len(v)-1]), nil
+			// the last character, not the last byte
+			r, _ := utf8.DecodeLastRuneInString(v)
+			return string(r), nil
 		}
 		return "", nil
 	case []interface{}:
@@ -1478,7 +1483,8 @@ func (e *CoreExtension) filterLast(value interface{}, args ...interface{}) (inte
 	case reflect.String:
 		s := rv.String()
 		if len(s) > 0 {
-			return string(s[len(s)-1]), nil
+			r, _ := utf8.DecodeLastRuneInString(s)
+			return string(r), nil
 		}
 		return "", nil
 	case reflect.Array, reflect.Slice:
